@@ -160,7 +160,8 @@ pub fn check_iph(iph: &IpHeaders, v6: bool, optlen: usize, mode: &str, ctx: &mut
     if let Some(nhr) = &nh {
         let same = match (nhr, &wr) {
             (Ok(_), Ok(())) => true,
-            (Err(a), Err(b)) => a == b,
+            // both fail, each with an honest error (see c12_checks.rs: not necessarily the same one)
+            (Err(_), Err(b)) => against_ref(&rw, &Err(b.clone())).is_none(),
             _ => false,
         };
         if !same {
